@@ -77,29 +77,32 @@ Proof.
   destruct k; discriminate.
 Qed.
 
-(* a previous gradient of the prediction must have the prediction's shape (otherwise Add fails) *)
-Definition prior_ok (ds : list nat) (o : option T) : Prop :=
-  match o with Some g => wf g /\ dims g = ds | None => True end.
-
 Local Open Scope R_scope.
 
-Theorem mse_grad rd (h : heap) p t name pv tv g0 h1 l :
+(* the tensor the property names: 2(p-t)/N at every position *)
+Definition mseG (pv tv : T) : T :=
+  let N := nth 0 (dims pv) 0%nat in ofFun [N] (fun idx => 2 * (elt pv idx - elt tv idx) / INR N).
+
+(* MASTER LEMMA.  Back-propagation from the loss processes the five nodes of the component, which
+   never fails, and then continues with the prediction p and its own ancestry [rest] from a heap
+   hm in which p already carries its final gradient. *)
+Lemma mse_bp rd (h : heap) p t name pv tv g0 h1 l :
   rules_own h -> wf_heap h ->
   valOf h p = Some pv -> wf pv -> valOf h t = Some tv -> wf tv ->
   trackedOf h p = true -> dirtyOf h p = false -> trackedOf h t = false -> dirtyOf h t = false ->
   lossArgs1 h (Some p) (Some t) = Some (p, t) ->
   gradOf h p = g0 -> prior_ok (dims pv) g0 ->
   mse_compute h (Some p) (Some t) name = (h1, Ok l) ->
-  let N := nth 0 (dims pv) 0%nat in
-  let G := ofFun [N] (fun idx => 2 * (elt pv idx - elt tv idx) / INR N) in
-  exists hm logm rest,
+  exists hm logm rest g,
     bp_topo rd idseal h1 l = fold_left (process_node rd idseal) (p :: rest) (hm, logm, Ok tt) /\
     (forall c, In c rest -> (c < p)%nat) /\ (edgesOf h p = [] -> rest = []) /\
-    sameS h1 hm /\
-    acc1 g0 G = Some (gradOf hm p) /\
-    (forall j, (j < length h)%nat -> j <> p -> gradOf hm j = gradOf h j).
+    sameS h1 hm /\ wf_heap h1 /\ trackedOf h1 t = false /\ edgesOf h1 p = edgesOf h p /\
+    gradOf hm p = Some g /\ dims g = dims pv /\ wf g /\
+    acc1 g0 (mseG pv tv) = Some (Some g) /\
+    (forall j, (j < length h)%nat -> j <> p -> gradOf hm j = gradOf h j) /\
+    (forall j, (j < length h)%nat -> gradOf h1 j = gradOf h j).
 Proof.
-  intros Ho Hw Vp Wp Vt Wt Tp Dp Tt Dt Ea Eg0 Hprior E N G.
+  intros Ho Hw Vp Wp Vt Wt Tp Dp Tt Dt Ea Eg0 Hprior E. unfold mseG. set (N := nth 0 (dims pv) 0%nat).
   destruct (lossArgs1_dims h (Some p) (Some t) p t pv tv Ea Vp Vt) as (n & Edp & Edt).
   assert (EN : N = n) by (unfold N; rewrite Edp; reflexivity). clearbody N. subst n.
   destruct (mse_structure h p t name h1 l true pv tv Vp Vt Tp Dp Tt Dt Ea E)
@@ -205,32 +208,141 @@ Proof.
         split; [left; apply Nat.le_add_r|congruence].
       + rewrite E1 in He. destruct He as [<-|[]]. cbn [fst snd rok]. split; [right; reflexivity|].
         split; [reflexivity|]. split; [congruence|]. split; [exact O1|exact OP]. }
-  rewrite Ef. exists hm, logm, rest. split; [reflexivity|]. split; [exact Brest|]. split.
-  { intros Hl. apply Hleaf. unfold H. rewrite edgesOf_old by exact Hp. exact Hl. }
-  split; [exact HSm|]. split.
-  2:{ intros j Hj Hjp. rewrite Hfr by (unfold dom; blia). unfold hh0. rewrite gradOf_setGrad, gradOf_markDirty.
-      assert (X : (j =? length h + 4)%nat = false) by (apply Nat.eqb_neq; blia). rewrite X.
-      unfold H. apply gradOf_old. exact Hj. }
   (* the gradient of the prediction *)
-  specialize (HMm p (or_intror eq_refl)). cbn [fold_left] in HMm.
   assert (S04 : s0 (length h + 4)%nat = Some (fun _ => 1)) by (unfold s0; rewrite Nat.eqb_refl; reflexivity).
   assert (S03 : s0 (length h + 3)%nat = None) by (unfold s0; rewrite eqb_off, (eqb_off_lt _ _ _ Hp); reflexivity).
   assert (S02 : s0 (length h + 2)%nat = None) by (unfold s0; rewrite eqb_off, (eqb_off_lt _ _ _ Hp); reflexivity).
   assert (S01 : s0 (length h + 1)%nat = None) by (unfold s0; rewrite eqb_off, (eqb_off_lt _ _ _ Hp); reflexivity).
   assert (S0p : s0 p = option_map elt g0) by (unfold s0; rewrite (eqb_lt_off _ _ _ Hp), Nat.eqb_refl; reflexivity).
-  clearbody s0.
-  rewrite (anode_some thr H _ _ _ S04) in HMm. rewrite E4 in HMm. cbn [fold_left] in HMm.
-  rewrite aedge_tracked in HMm by exact T3.
-  erewrite (anode_some thr H _ (length h + 3)%nat) in HMm by (aq Hp; rewrite S03; reflexivity).
-  rewrite E3 in HMm. cbn [fold_left] in HMm. rewrite aedge_tracked in HMm by exact T2.
-  erewrite (anode_some thr H _ (length h + 2)%nat) in HMm by (aq Hp; rewrite S02; reflexivity).
-  rewrite E2 in HMm. cbn [fold_left] in HMm. rewrite aedge_untracked in HMm by exact T0.
-  rewrite aedge_tracked in HMm by exact T1.
-  erewrite (anode_some thr H _ (length h + 1)%nat) in HMm by (aq Hp; rewrite S01; reflexivity).
-  rewrite E1 in HMm. cbn [fold_left] in HMm. rewrite aedge_tracked in HMm by exact THp.
-  rewrite aupd_same in HMm. rewrite !(aupd_other _ _ _ p) in HMm by eqb_false Hp. rewrite S0p in HMm.
-  cbn [rsem] in HMm.
-  Show.
-Abort.
+  assert (Fin : exists f, fold_left (anode thr H)
+             [(length h + 4)%nat; (length h + 3)%nat; (length h + 2)%nat; (length h + 1)%nat] s0 p = Some f /\
+           forall idx, validIdx [N] idx -> f idx = prior g0 idx + 2 * (elt pv idx - elt tv idx) / INR N).
+  { clear HMm HM0. clearbody s0. cbn [fold_left]. do 4 anode_step Hp. aq Hp. s0q.
+    eexists. split; [reflexivity|]. intros idx Hv.
+    assert (EV : Vl H (length h + 2) idx = elt tv idx - elt pv idx).
+    { unfold Vl. rewrite V2. rewrite (proj2 (proj2 Tdv) idx Hv). reflexivity. }
+    assert (Epow : forall x, Rpow x (c2 - 1) = x).
+    { intros x. rewrite cst_R, dec2R_2. replace (2 - 1) with (IZR 1) by (simpl; ring). rewrite Rpow_IZR. simpl. ring. }
+    assert (HN : INR N <> 0) by (apply not_0_INR; blia).
+    destruct g0 as [gp|]; cbn [option_map prior rsem]; rewrite D3, EV, Epow, cst_R, dec2R_2;
+      change (Z.to_nat 0) with 0%nat; cbn [nth]; field; exact HN. }
+  destruct Fin as (f & Ef' & Hf). specialize (HMm p (or_intror eq_refl)). rewrite Ef' in HMm.
+  destruct HMm as (g & Eg & Tg). rewrite DP in Tg.
+  rewrite Ef. exists hm, logm, rest, g. split; [reflexivity|]. split; [exact Brest|]. split.
+  { intros Hl. apply Hleaf. unfold H. rewrite edgesOf_old by exact Hp. exact Hl. }
+  split; [exact HSm|]. split; [exact HwH|]. split; [unfold H; rewrite trackedOf_app by exact Ht; exact Tt|].
+  split; [unfold H; apply edgesOf_old; exact Hp|].
+  split; [exact Eg|]. split; [rewrite Edp; exact (proj1 Tg)|]. split; [exact (proj1 (proj2 Tg))|]. split.
+  { apply (acc1_final thr draw g0 [N] _ f g); [rewrite <- Edp; exact Hprior|repeat constructor; exact Npos|exact Tg|exact Hf]. }
+  split; [|intros j Hj; unfold H; apply gradOf_old; exact Hj].
+  intros j Hj Hjp. rewrite Hfr by (unfold dom; blia). unfold hh0. rewrite gradOf_setGrad, gradOf_markDirty.
+  assert (X : (j =? length h + 4)%nat = false) by (apply Nat.eqb_neq; blia). rewrite X.
+  unfold H. apply gradOf_old. exact Hj.
+Qed.
+
+(* C13, MSE.  Whatever the outcome of the back-propagation below the prediction (p may be a leaf or
+   the result of earlier tracked operations: NO hypothesis restricts the back edges of p), the
+   prediction ends with its previous gradient accumulated with the tensor 2(p-t)/N, which has the
+   prediction's shape; the untracked target receives nothing and no value changes. *)
+Theorem mse_grad rd (h : heap) p t name pv tv g0 h1 l :
+  rules_own h -> wf_heap h ->
+  valOf h p = Some pv -> wf pv -> valOf h t = Some tv -> wf tv ->
+  trackedOf h p = true -> dirtyOf h p = false -> trackedOf h t = false -> dirtyOf h t = false ->
+  lossArgs1 h (Some p) (Some t) = Some (p, t) ->
+  gradOf h p = g0 -> prior_ok (dims pv) g0 ->
+  mse_compute h (Some p) (Some t) name = (h1, Ok l) ->
+  forall h2 log r, bp_topo rd idseal h1 l = (h2, log, r) ->
+    (exists g, gradOf h2 p = Some g /\ dims g = dims pv /\ wf g /\ acc1 g0 (mseG pv tv) = Some (Some g)) /\
+    gradOf h2 t = gradOf h1 t /\
+    (forall i, valOf h2 i = valOf h1 i).
+Proof.
+  intros Ho Hw Vp Wp Vt Wt Tp Dp Tt Dt Ea Eg0 Hprior E h2 log r E2.
+  destruct (mse_bp rd h p t name pv tv g0 h1 l Ho Hw Vp Wp Vt Wt Tp Dp Tt Dt Ea Eg0 Hprior E)
+    as (hm & logm & rest & g & Esp & Brest & _ & HSm & W1 & Tt1 & _ & Eg & Dg & Wg & Hacc & Hfr & Hold).
+  assert (Ht : (t < length h)%nat) by (eapply valOf_some_lt; eauto).
+  assert (Hpt : t <> p) by (intros X; subst t; congruence).
+  destruct (split_any rd h1 l p rest hm logm p W1 HSm Esp Brest (or_introl eq_refl) h2 log r E2) as [HS2 Hgp].
+  destruct (split_any rd h1 l p rest hm logm t W1 HSm Esp Brest (or_intror Tt1) h2 log r E2) as [_ Hgt].
+  split; [exists g; rewrite Hgp; auto|]. split.
+  - rewrite Hgt, (Hfr t Ht Hpt), (Hold t Ht). reflexivity.
+  - intros i. symmetry. apply (sameS_val _ _ HS2).
+Qed.
+
+(* the same statement read for an interior prediction: it IS the same theorem *)
+Definition mse_grad_interior := mse_grad.
+
+(* never fails: a leaf prediction *)
+Theorem mse_grad_leaf rd (h : heap) p t name pv tv g0 h1 l :
+  rules_own h -> wf_heap h ->
+  valOf h p = Some pv -> wf pv -> valOf h t = Some tv -> wf tv ->
+  trackedOf h p = true -> dirtyOf h p = false -> trackedOf h t = false -> dirtyOf h t = false ->
+  lossArgs1 h (Some p) (Some t) = Some (p, t) ->
+  gradOf h p = g0 -> prior_ok (dims pv) g0 ->
+  mse_compute h (Some p) (Some t) name = (h1, Ok l) ->
+  edgesOf h p = [] ->
+  exists h2 log, bp_topo rd idseal h1 l = (h2, log, Ok tt) /\
+    (exists g, gradOf h2 p = Some g /\ dims g = dims pv /\ wf g /\ acc1 g0 (mseG pv tv) = Some (Some g)) /\
+    gradOf h2 t = gradOf h1 t /\
+    (forall i, valOf h2 i = valOf h1 i).
+Proof.
+  intros Ho Hw Vp Wp Vt Wt Tp Dp Tt Dt Ea Eg0 Hprior E Hleaf.
+  destruct (mse_bp rd h p t name pv tv g0 h1 l Ho Hw Vp Wp Vt Wt Tp Dp Tt Dt Ea Eg0 Hprior E)
+    as (hm & logm & rest & g & Esp & _ & Hrest & HSm & _ & _ & Hed & Eg & _).
+  rewrite (Hrest Hleaf) in Esp. rewrite (split_leaf rd h1 p hm logm g HSm) in Esp; [|congruence|exact Eg].
+  eexists _, _. split; [exact Esp|].
+  exact (mse_grad rd h p t name pv tv g0 h1 l Ho Hw Vp Wp Vt Wt Tp Dp Tt Dt Ea Eg0 Hprior E _ _ _ Esp).
+Qed.
+
+(* an untracked prediction: the loss is untracked and back-propagation changes nothing *)
+Theorem mse_grad_untracked rd sealg (h : heap) p t name pv tv h1 l :
+  valOf h p = Some pv -> valOf h t = Some tv ->
+  trackedOf h p = false -> dirtyOf h p = false -> trackedOf h t = false -> dirtyOf h t = false ->
+  lossArgs1 h (Some p) (Some t) = Some (p, t) ->
+  mse_compute h (Some p) (Some t) name = (h1, Ok l) ->
+  bp_topo rd sealg h1 l = (h1, [], Ok tt).
+Proof.
+  intros Vp Vt Tp Dp Tt Dt Ea E.
+  destruct (mse_structure h p t name h1 l false pv tv Vp Vt Tp Dp Tt Dt Ea E)
+    as (bt & bp & dv & d2v & lv & _ & _ & _ & _ & _ & -> & ->). cbv zeta.
+  apply bp_topo_untracked. rewrite trackedOf_off. reflexivity.
+Qed.
 
 End Mse.
+
+(* ---- non-vacuity: a leaf prediction [1;3], target [0;1]: gradient [1;2] ---- *)
+Section MseEx.
+Variables (thr : R) (draw : bool -> nat -> R).
+Local Hint Extern 0 (Scalar R) => exact (R_scalar thr draw) : typeclass_instances.
+Local Open Scope R_scope.
+
+Definition exP : tensor R := mkT [2%nat] (Vec [Sc 1; Sc 3]).
+Definition exT : tensor R := mkT [2%nat] (Vec [Sc 0; Sc 1]).
+Definition exH : @heap R :=
+  [mkNode exP true false None [] (Some 0%nat); mkNode exT false false None [] (Some 1%nat)].
+
+Lemma wf_v2 (a b : R) : wf (mkT [2%nat] (Vec [Sc a; Sc b])).
+Proof. split; [cbn; repeat constructor|repeat constructor]. Qed.
+
+Example mse_grad_ex rd : exists h1 l h2 log g,
+  mse_compute exH (Some 0%nat) (Some 1%nat) None = (h1, Ok l) /\
+  bp_topo rd (fun _ g => g) h1 l = (h2, log, Ok tt) /\
+  gradOf h2 0 = Some g /\ dims g = [2%nat] /\ elt g [0%nat] = 1 /\ elt g [1%nat] = 2.
+Proof.
+  assert (Ho : rules_own exH) by (intros c n e Hn He; destruct c as [|[|[|c]]]; cbn in Hn; try discriminate; inversion Hn; subst n; destruct He).
+  assert (Hw : wf_heap exH) by (intros c n e Hn He; destruct c as [|[|[|c]]]; cbn in Hn; try discriminate; inversion Hn; subst n; destruct He).
+  destruct (mse_compute_spec exH (Some 0%nat) (Some 1%nat) 0%nat 1%nat None exP exT eq_refl eq_refl eq_refl
+              (wf_v2 1 3) (wf_v2 0 1)) as (n & r & _ & _ & (h1 & l & E & _) & _).
+  destruct (mse_grad_leaf thr draw rd exH 0%nat 1%nat None exP exT None h1 l Ho Hw eq_refl (wf_v2 1 3) eq_refl (wf_v2 0 1)
+              eq_refl eq_refl eq_refl eq_refl eq_refl eq_refl I E eq_refl)
+    as (h2 & log & E2 & (g & Eg & Dg & _ & Hacc) & _).
+  exists h1, l, h2, log, g. split; [exact E|]. split; [exact E2|]. split; [exact Eg|]. split; [exact Dg|].
+  cbn [acc1] in Hacc. assert (g = mseG exP exT) by congruence. subst g. unfold mseG. cbn [dims exP nth].
+  split; (rewrite elt_ofFun by (repeat constructor)); unfold elt; cbn; lra.
+Qed.
+End MseEx.
+
+Print Assumptions mse_bp.
+Print Assumptions mse_grad.
+Print Assumptions mse_grad_leaf.
+Print Assumptions mse_grad_untracked.
+Print Assumptions mse_grad_ex.
